@@ -618,3 +618,122 @@ func ruleH1b(c *Ctx) {
 		R.Fail("H1b", "hdrhist/record", "-", "no `counts[i] += d` store found: the recording primitive moved")
 	}
 }
+
+// ---------------------------------------------------------------- V3
+
+func ruleV3(c *Ctx) {
+	R := c.R
+	p := c.P
+	R.Rule("V3", "WaitGroup.Done is Add(-1) and WaitGroup.Inc is Add(1) (constant arguments)", 2)
+	for name, want := range map[string]string{"fun.(*WaitGroup).Done": "-1", "fun.(*WaitGroup).Inc": "1"} {
+		f := p.FuncNamed(name)
+		if f == nil {
+			R.Fail("V3", name, "-", "not found")
+			continue
+		}
+		info := f.Info()
+		got := ""
+		walkNoLit(f.Body, func(x ast.Node) bool {
+			if call, ok := x.(*ast.CallExpr); ok && callName(info, call) == "fun.(*WaitGroup).Add" && len(call.Args) == 1 {
+				if tv, ok := info.Types[call.Args[0]]; ok && tv.Value != nil {
+					got = tv.Value.String()
+				}
+			}
+			return true
+		})
+		R.Check(got == want, "V3", name+"/delta", p.Position(f.Pos()), "Add("+want+")", fmt.Sprintf("%s calls Add(%s), not Add(%s): every Launch/Done pair moves the counter the wrong way (Wait returns early or never)", name, got, want))
+	}
+}
+
+// ---------------------------------------------------------------- D6e
+
+func ruleD6e(c *Ctx) {
+	R := c.R
+	p := c.P
+	R.Rule("D6e", "Set.AddCheck inserts (into the order list or the index) only after the presence test returned for a present value (re-adding does not move or duplicate a member); Set.DeleteCheck removes the value from the index on every path (a deleted value is not found again)", 2)
+	if f := p.FuncNamed("dt.(*Set).AddCheck"); f != nil {
+		info := f.Info()
+		fl := newFlow(f)
+		// presence variable: ok = s.hash.Check(in)
+		var pres types.Object
+		walkNoLit(f.Body, func(x ast.Node) bool {
+			if as, ok := x.(*ast.AssignStmt); ok && len(as.Lhs) == 1 && len(as.Rhs) == 1 {
+				if call, ok := ast.Unparen(as.Rhs[0]).(*ast.CallExpr); ok && selName(call) == "Check" {
+					if id, ok := as.Lhs[0].(*ast.Ident); ok {
+						pres = info.Uses[id]
+						if pres == nil {
+							pres = info.Defs[id]
+						}
+					}
+				}
+			}
+			return true
+		})
+		var guard ast.Node
+		walkNoLit(f.Body, func(x ast.Node) bool {
+			if ifs, ok := x.(*ast.IfStmt); ok && containsReturn(ifs.Body) {
+				if id, ok := ast.Unparen(ifs.Cond).(*ast.Ident); ok && pres != nil && info.Uses[id] == pres {
+					guard = ifs.Cond
+				}
+				if call, ok := ast.Unparen(ifs.Cond).(*ast.CallExpr); ok && selName(call) == "Check" {
+					guard = ifs.Cond
+				}
+			}
+			return true
+		})
+		ok := guard != nil
+		n := 0
+		walkNoLit(f.Body, func(x ast.Node) bool {
+			call, isCall := x.(*ast.CallExpr)
+			if !isCall {
+				return true
+			}
+			switch selName(call) {
+			case "Append", "PushBack", "PushFront", "Add", "SetDefault", "Store", "Set":
+				n++
+				if guard == nil || !fl.Dominates(guard, call) {
+					ok = false
+				}
+			}
+			return true
+		})
+		R.Check(ok && n > 0, "D6e", "dt.(*Set).AddCheck/insert-once", p.Position(f.Pos()), fmt.Sprintf("%d insertions, all behind `if present { return }`", n),
+			"Set.AddCheck inserts without (or before) the presence test: re-adding a member appends a second element for it — the iterator yields it twice, it moves to the back of an ordered set, and the index keeps only the newer element")
+	} else {
+		R.Fail("D6e", "dt.(*Set).AddCheck/insert-once", "-", "not found")
+	}
+	if f := p.FuncNamed("dt.(*Set).DeleteCheck"); f != nil {
+		info := f.Info()
+		fl := newFlow(f)
+		deferred := false
+		var del ast.Node
+		walkNoLit(f.Body, func(x ast.Node) bool {
+			call, ok := x.(*ast.CallExpr)
+			if !ok {
+				return true
+			}
+			if isBuiltinCall(info, call, "delete") || selName(call) == "Delete" {
+				del = call
+				if ds, ok := p.Parent(call).(*ast.DeferStmt); ok && p.Parent(ds) == ast.Node(f.Body) {
+					deferred = true
+				}
+			}
+			return true
+		})
+		ok := del != nil
+		if ok && !deferred {
+			// every `return true` is dominated by the delete
+			walkNoLit(f.Body, func(x ast.Node) bool {
+				if rs, isRet := x.(*ast.ReturnStmt); isRet && len(rs.Results) == 1 {
+					if tv, has := info.Types[rs.Results[0]]; has && tv.Value != nil && tv.Value.String() == "true" && !fl.Dominates(del, rs) {
+						ok = false
+					}
+				}
+				return true
+			})
+		}
+		R.Check(ok, "D6e", "dt.(*Set).DeleteCheck/unindexed", p.Position(f.Pos()), "the value leaves the index on every successful path", "Set.DeleteCheck does not delete the value from the index: Check/Len still report it and a second Delete returns true again although the element is gone from the order list")
+	} else {
+		R.Fail("D6e", "dt.(*Set).DeleteCheck/unindexed", "-", "not found")
+	}
+}
